@@ -82,6 +82,7 @@ EXOTIC_NAMES = ['db.Layer', 'db_Layer', 'dbxLayer', 'C++', 'DB(sqlite)',
 P_EXOTIC = 0.1
 P_FALSY = 0.12
 P_FACTORY = 0.15
+P_GROUPING = 0.1
 
 
 def exoticise(rng, specs, p=None):
@@ -136,6 +137,10 @@ def random_layer_graph(rng, nmax=6, nmin=1, p_edge=0.4, p_inst=0.35,
         for h in HOOKS:
             if rng.random() < p_hook:
                 hooks[h] = 'ok'
+        if rng.random() < P_GROUPING:
+            # a layer that only groups other layers: none of the four hooks
+            # (an instance layer does not inherit any from its bases either)
+            hooks = {}
         specs.append({'name': names[i], 'kind': kind,
                       'bases': [specs[b]['name'] for b in bases],
                       'hooks': hooks})
